@@ -111,13 +111,13 @@ func genC06(g *Gen) {
 // C07: a fault on one connection, bystanders before and after it
 func genC07(g *Gen) {
 	faults := [][]string{
-		{"normal", "p"},             // panic in a concurrently dispatched handler
-		{"normal", "w", "p"},        // after having written
-		{"normal", "b3", "p"},       // panic while others are in flight
-		{"starttls", "p"},           // panic in the inline StartTLS handler
-		{"unbind", "p"},             // panic in the unbind handler
-		{"bad"},                     // malformed frame
-		{"close"},                   // abrupt disconnect with a handler in flight
+		{"normal", "p"},       // panic in a concurrently dispatched handler
+		{"normal", "w", "p"},  // after having written
+		{"normal", "b3", "p"}, // panic while others are in flight
+		{"starttls", "p"},     // panic in the inline StartTLS handler
+		{"unbind", "p"},       // panic in the unbind handler
+		{"bad"},               // malformed frame
+		{"close"},             // abrupt disconnect with a handler in flight
 	}
 	for _, f := range faults {
 		for _, bystanderBusy := range []bool{false, true} {
